@@ -3750,9 +3750,8 @@ static sexp sexp_read_raw_depth (sexp ctx, sexp in, sexp *shares, int depth) {
     case '!':
       c1 = sexp_read_char(ctx, in);
       if (isspace(c1) || c1 == '/') {
-        while ((c1 = sexp_read_char(ctx, in)) != EOF)
-          if (c1 == '\n')
-            break;
+        while (c1 != EOF && c1 != '\n')  /* the line may end right after #! */
+          c1 = sexp_read_char(ctx, in);
         sexp_port_line(in)++;
         res = SEXP_VOID;
       } else {
